@@ -12,10 +12,17 @@ Definition is_internal (name : str) : bool := starts_with US name.
 Definition cap (p : str) : str := match p with c :: r => upper c :: r | [] => [] end.
 
 (* nc = true: NamingConvention.SAFE_DS, false: PYTHON *)
+(* name[start:-end] with the end == 0 special case = strip of "_" on both sides *)
+Definition cleaned_of (name : str) : str := rstrip_chars US (lstrip_chars US name).
+
+(* names that are emitted as they are: the single underscore, and names whose stripped form is empty or starts with a
+   digit (their conversion would not be an identifier) *)
+Definition keeps (name : str) : bool :=
+  str_eqb name US || match cleaned_of name with [] => true | c :: _ => is_digit c end.
+
 Definition convert (nc is_class : bool) (name : str) : str :=
-  if str_eqb name US || negb nc then name else
-  (* name[start:-end] with the end == 0 special case = strip of "_" on both sides *)
-  let cleaned := rstrip_chars US (lstrip_chars US name) in
+  if keeps name || negb nc then name else
+  let cleaned := cleaned_of name in
   let parts := split_ch us cleaned in
   if is_class then List.concat (map cap (filter nonempty parts))
   else match parts with
